@@ -76,6 +76,24 @@ class C01(MsgProp):
                 yield ("ENC %d %s" % (n, " ".join(head[:c] + g.bias_list(r, fid, "valid", shape=shape))), "bias-" + shape, True)
             for k in FLOOD_SIZES:
                 yield (bias_op(g, r, n, fid, "valid", "flood%d" % k), "bias-flood", True)
+        import itertools
+        for n, fid, alpha in ((1059, "df_msg1059_biases", (0, 32, 33, 63)), (1065, "df_msg1065_biases", (0, 16, 30, 31))):
+            if n in g.numbers:
+                for seq in itertools.product(alpha, repeat=4):
+                    yield (bias_op(g, r, n, fid, "valid", "seq:" + ",".join(map(str, seq))), "bias-sequence-small-scope", True)
+        # MSM inputs of every invalid class: the encoder must refuse them; if it accepts one, its frame must still
+        # decode to the same type and re-encode
+        for f in g.frags.values():
+            if f["macro"] == "msm_data_seg_frag":
+                nums = [x for x in g.numbers if g.mod_of[x] and f["id"] in g.frags[g.mod_of[x]]["refs"]]
+                for num in nums[:2]:
+                    mf = g.frags[g.mod_of[num]]
+                    for inv in ("sat0", "sat65", "cellsat0", "badsig", "dupsat", "dupcell", "dupcell64", "gridx4", "mismatch-extra-sat",
+                                "mismatch-extra-cell", "cells65", "empty", "only-sats", "only-cells"):
+                        toks = []
+                        for _, x in mf["fields"]:
+                            toks += g.msm(r, f, "valid", invalid=inv) if x == f["id"] else g.frag(r, x, "valid")
+                        yield ("ENC %d %s" % (num, " ".join(toks)), "msm-invalid-class", True)
         # frames from a used builder: after builds that failed early / late / were refused, and after long frames
         # (C12 says the bytes are those of a fresh builder; here the frame itself must decode and re-encode)
         self.hist_ops = []
@@ -212,6 +230,15 @@ class C02(MsgProp):
                 if not thorough and r.random() < 0.5:
                     continue
                 yield ("DEC " + hx(mk_frame(msm_payload(r, n, ns, ng))), "msm-masks", True)
+        # containers of exactly 64 (and 63, 1, 2) cells with cell masks at their extremes: only the last cell, only
+        # the first, none, all, alternating
+        for n in (MSM_NUMBERS if thorough else [x for x in MSM_NUMBERS if x % 10 in (4, 7)]):
+            for (ns, ng) in [(64, 1), (32, 2), (16, 4), (8, 8), (4, 16), (2, 32), (1, 1), (63, 1), (21, 3), (1, 2), (9, 7)]:
+                nc = ns * ng
+                for cm in (1, 1 << (nc - 1), 0, (1 << nc) - 1, 2, 3, int("10" * 32, 2) & ((1 << nc) - 1)):
+                    sats = r.sample(range(64), ns)
+                    sigs = r.sample(range(32), ng)
+                    yield ("DEC " + hx(mk_frame(msm_payload_bits(r, n, sats, sigs, cellmask=(cm, nc)))), "msm-cell-mask-extremes", True)
         # every single satellite-mask bit and signal-mask bit on its own (one MSM type per constellation in the
         # quick tier, all 49 in the thorough tier)
         singles = MSM_NUMBERS if thorough else [x for x in MSM_NUMBERS if x % 10 == 4]
@@ -285,8 +312,9 @@ def msm_payload(r, n, ns, ng):
     return bits_to_bytes(bits)[:1023]
 
 
-def msm_payload_bits(r, n, satbits, sigbits):
-    """MSM payload with exactly the given satellite-mask / signal-mask bit positions (0 = MSB) set"""
+def msm_payload_bits(r, n, satbits, sigbits, cellmask=None):
+    """MSM payload with exactly the given satellite-mask / signal-mask bit positions (0 = MSB) set (and, if
+    given, the cell mask (value, width) right after them)"""
     bits = int_bits(n, 12) + [r.getrandbits(1) for _ in range(61)]
     sat = [0] * 64
     for i in satbits:
@@ -294,7 +322,12 @@ def msm_payload_bits(r, n, satbits, sigbits):
     sig = [0] * 32
     for i in sigbits:
         sig[i] = 1
-    bits += sat + sig + [r.getrandbits(1) for _ in range(400)]
+    bits += sat + sig
+    if cellmask is not None:
+        bits += int_bits(cellmask[0], cellmask[1])
+        bits += [r.getrandbits(1) for _ in range(7000)]
+    else:
+        bits += [r.getrandbits(1) for _ in range(400)]
     return bits_to_bytes(bits)[:1023]
 
 
@@ -704,6 +737,18 @@ class C16(MsgProp):
                 op = bias_op(g, r, n, fid, "valid", shape)
                 self.plan.append((n, op))
                 yield (op, "bias-" + shape.rstrip("0123456789") + "-dups", True)
+        # small scope, exhaustive: every sequence of up to 4 satellite ids (5 in the thorough tier) over an alphabet
+        # of boundary satellites -- the grouping logic depends on nothing else
+        import itertools
+        deep = getattr(ctx, "registered_tier", "quick") == "thorough"
+        for n, fid, alpha in ((1059, "df_msg1059_biases", (0, 1, 31, 32, 33, 63)), (1065, "df_msg1065_biases", (0, 1, 15, 16, 30, 31))):
+            if n not in g.numbers:
+                continue
+            for L in range(1, 6 if deep else 5):
+                for seq in itertools.product(alpha, repeat=L):
+                    op = bias_op(g, r, n, fid, "valid", "seq:" + ",".join(map(str, seq)))
+                    self.plan.append((n, op))
+                    yield (op, "bias-sequence-small-scope", len(set(seq)) >= 2)
         for i in range(per):
             head = g.frag(r, "msg1230", "valid")
             c = [k for k, t in enumerate(head) if t.startswith("c")][0]
@@ -845,6 +890,35 @@ class C17(MsgProp):
                 nt = any(c > 127 for c in s) or n >= N // 4
                 yield ("STR88591 %d %s" % (N, " ".join(map(str, s))), "str88591", nt)
                 yield ("ASTR %d %s" % (N, " ".join(map(str, s))), "astr", nt)
+        # every boundary code point (ends of the 1-, 2-, 3- and 4-byte ranges, Latin-1 ends, literals of the
+        # sources) at every byte offset around the capacity, behind ASCII and behind multi-byte fill
+        edge_cps = [0x7F, 0x80, 0xFF, 0x100, 0x7FF, 0x800, 0xD7FF, 0xE000, 0xFFFD, 0xFFFE, 0xFFFF, 0x10000, 0x10FFFF, 0xA4, 0, 1] + \
+            [v for v in g.dict.get("new_ints", []) if sc(v)][:12]
+        for N in (7, 31, 127, 255):
+            for cp in edge_cps:
+                w = len(chr(cp).encode()) if cp else 1
+                for back in range(0, 6):
+                    for fill in ("a", "\u00e9", "\u65e5"):
+                        fw = len(fill.encode())
+                        k = (N - back) // fw
+                        pad = N - back - k * fw
+                        if k < 0 or pad < 0:
+                            continue
+                        cs = [ord(fill)] * k + [0x61] * pad + [cp] + [0x62, cp]
+                        yield ("ASTR %d %s" % (N, " ".join(map(str, cs))), "astr-boundary", True)
+                for back in (0, 1, 2):
+                    cs = [0x61] * (N - back) + [cp, 0x62]
+                    yield ("STR88591 %d %s" % (N, " ".join(map(str, cs))), "str88591-boundary", True)
+        for cp in edge_cps:
+            if cp == 0:
+                continue
+            for back in range(0, 6):
+                for fill in ("a", "\u00e9", "\u65e5"):
+                    fw = len(fill.encode())
+                    k = min((255 - back) // fw, 126)
+                    txt = fill * k + chr(cp)
+                    if len(txt) <= 127 and len(txt.encode()) <= 255:
+                        yield ("ENC 1029 i%d i%d i%d b%s" % (r.randrange(4096), r.randrange(65536), r.randrange(86400), hx(txt.encode())), "text-boundary", True)
         for n in (1007, 1008, 1021, 1022, 1023, 1024, 1025, 1026, 1027, 1029, 1033, 1300, 1301, 1302):
             if n not in g.numbers:
                 continue
